@@ -592,6 +592,33 @@ def check_property(prop, tier, seed):
                 build_failed = (ex.stage, ex.detail)
 
     closed, axioms = assumptions_from_log(coq_log)
+    if not build_failed and discharged == len(obligations) and obligations:
+        # Print Assumptions for every obligation, on every run (the build log only has them when
+        # the file was recompiled in this run)
+        try:
+            with Lock("build"):
+                af = os.path.join(COQB, "Assum_%s.v" % prop)
+                mods = ["Properties_%s" % prop] + (["Properties_Observers"] if prop in OBSERVED_PROPS else [])
+                with open(af, "w") as f:
+                    f.write("Require Import %s.\n" % " ".join("RDS." + m for m in mods))
+                    for t in obligations:
+                        f.write("Print Assumptions %s.\n" % t)
+                rc, o, e = sh(["coqc", "-R", COQB, "RDS", af], cwd=COQB, timeout=600)
+                for ext in (".v", ".vo", ".glob", ".vok", ".vos"):
+                    try:
+                        os.remove(os.path.join(COQB, "Assum_%s%s" % (prop, ext)))
+                    except OSError:
+                        pass
+                try:
+                    os.remove(os.path.join(COQB, ".Assum_%s.aux" % prop))
+                except OSError:
+                    pass
+            if rc == 0:
+                closed, axioms = assumptions_from_log(o + "\nEND\n")
+            else:
+                notes.append("Print Assumptions pass failed: " + (o + e)[-500:])
+        except Exception as ex:      # noqa
+            notes.append("Print Assumptions pass failed: %r" % (ex,))
     if build_failed:
         violations.append({"kind": "build", "detail": "%s: %s" % build_failed, "found_input": False})
     elif discharged < len(obligations) or not obligations:
